@@ -102,3 +102,41 @@ def actuals(callee, call, is_method=False):
 def actual_texts(callee, call, is_method=False):
     from ..model import norm
     return [norm(a) if a is not None else None for a in actuals(callee, call, is_method)]
+
+
+def mask_function(run, repo, rel, rule='R13.maskfn'):
+    """utils.mask(qubits, N): a boolean vector of length N that is True exactly at the given qubits."""
+    import ast
+    from ..flow import walk
+    from ..model import norm
+    f = repo.func(rel, 'mask')
+    q, n = f.posparams[0], f.posparams[1]
+    allocs = [st for st, _ in walk(f.node) if isinstance(st, ast.Assign) and isinstance(st.value, ast.Call)
+              and norm(st.value.func).split('.')[-1] == 'zeros']
+    ok = len(allocs) == 1 and allocs[0].value.args and norm(allocs[0].value.args[0]) == n and 'bool' in norm(allocs[0].value)
+    run.check(ok, rule, f, allocs[0] if allocs else 'zeros(N, bool)', 'the mask is a boolean vector with one entry per qubit of the register (zeros(%s, dtype=bool))' % n)
+    if not allocs:
+        return
+    mv = norm(allocs[0].targets[0])
+    stores = [st for st, _ in walk(f.node) if isinstance(st, ast.Assign) and isinstance(st.targets[0], ast.Subscript) and norm(st.targets[0].value) == mv]
+    ok = len(stores) == 1 and isinstance(stores[0].value, ast.Constant) and stores[0].value.value is True
+    if ok:
+        idx = stores[0].targets[0].slice
+        while isinstance(idx, ast.Call) and idx.args:
+            idx = idx.args[0]
+        ok = norm(idx) == q
+    run.check(ok, rule, f, stores[0] if stores else 'mask[qubits] = True', 'exactly the listed qubits are set to True')
+    rets = [norm(st.value) for st, _ in walk(f.node) if isinstance(st, ast.Return)]
+    run.check(rets == [mv], rule, f, 'return', 'the mask vector is returned')
+
+
+def stabilizers_property(run, repo, rel, rule='R13.active'):
+    """StabilizerState.stabilizers = rows [r, N) of the tableau as a list"""
+    import ast
+    from ..flow import walk
+    from ..model import norm
+    f = repo.func(rel, 'StabilizerState.stabilizers')
+    rets = [st.value for st, _ in walk(f.node) if isinstance(st, ast.Return)]
+    ok = len(rets) == 1 and isinstance(rets[0], ast.Subscript) and norm(rets[0].value) == 'self' and isinstance(rets[0].slice, ast.Slice) \
+        and norm(rets[0].slice.lower) == 'self.r' and norm(rets[0].slice.upper) == 'self.N' and rets[0].slice.step is None
+    run.check(ok, rule, f, rets[0] if rets else 'stabilizers', 'the active stabilizers are the rows [self.r : self.N] of the tableau')
